@@ -18,7 +18,7 @@ import (
 )
 
 type stmtT struct {
-	Kind  string   `json:"kind"` // create-user create-role grant grant-role lock
+	Kind  string   `json:"kind"` // create-user create-role grant grant-dynamic grant-routine grant-role lock
 	User  string   `json:"user"`
 	Role  string   `json:"role,omitempty"`
 	Admin bool     `json:"admin,omitempty"`
@@ -43,6 +43,9 @@ var roleNames = []string{"r1", "r2"}
 // objects as they exist; grants may spell them in another case (names are case-insensitive for the privilege maps)
 var dbNames = []string{"db", "Db2"}
 var tblNames = []string{"t", "Ss"}
+var dbTblNames = []string{"t", "Ss", "Orders"} // tables of database db
+var procNames = []string{"DoWork", "lowproc"}  // procedures of database db
+var dynNames = []string{"CLONE_ADMIN", "REPLICATION_SLAVE_ADMIN"}
 
 func isRole(n string) bool { return strings.HasPrefix(n, "r") }
 func acct(n string) string {
@@ -74,6 +77,14 @@ func (s stmtT) SQL() string {
 		return "CREATE ROLE " + s.User
 	case "grant":
 		return "GRANT " + strings.Join(s.Privs, ", ") + " ON " + levelSQL(s) + " TO " + acct(s.User)
+	case "grant-dynamic":
+		q := "GRANT " + strings.Join(s.Privs, ", ") + " ON *.* TO " + acct(s.User)
+		if s.Admin {
+			q += " WITH GRANT OPTION"
+		}
+		return q
+	case "grant-routine":
+		return "GRANT EXECUTE ON PROCEDURE `" + s.DB + "`.`" + s.Tbl + "` TO " + acct(s.User)
 	case "grant-role":
 		q := "GRANT " + acct(s.Role) + " TO " + acct(s.User)
 		if s.Admin {
@@ -115,11 +126,13 @@ func sessAs(e *eng.E, user, host string, id uint32) *eng.S {
 var schema = []string{"CREATE DATABASE Db2",
 	"CREATE TABLE db.t (a int primary key, b int)", "CREATE TABLE db.Ss (a int primary key, b int)",
 	"CREATE TABLE Db2.t (a int primary key, b int)", "CREATE TABLE Db2.Ss (a int primary key, b int)",
-	"INSERT INTO db.t VALUES (1,1)", "INSERT INTO Db2.Ss VALUES (1,1)"}
+	"CREATE TABLE db.Orders (a int primary key, b int)",
+	"CREATE PROCEDURE db.DoWork() SELECT 1", "CREATE PROCEDURE db.lowproc() SELECT 2",
+	"INSERT INTO db.t VALUES (1,1)", "INSERT INTO Db2.Ss VALUES (1,1)", "INSERT INTO db.Orders VALUES (1,1)"}
 
 var probes = []string{"SELECT a FROM db.t", "SELECT a FROM db.Ss", "SELECT a FROM Db2.t", "SELECT a FROM Db2.Ss",
 	"UPDATE db.t SET b = 2", "UPDATE Db2.Ss SET b = 2", "INSERT INTO Db2.t VALUES (9,9)", "DELETE FROM db.Ss WHERE a < 0",
-	"CREATE USER x1@localhost"}
+	"CREATE USER x1@localhost", "SELECT a FROM db.Orders", "SELECT a FROM db.orders", "CALL db.DoWork()", "CALL db.lowproc()", "CALL db.dowork()"}
 
 func showGrants(root *eng.S, a string) string {
 	r := root.Query("SHOW GRANTS FOR " + a)
@@ -220,7 +233,7 @@ func run(c *lib.Ctx, cs caseT) {
 		}
 	}
 	for _, s := range cs.History {
-		if s.Kind == "grant" && (s.DB != strings.ToLower(s.DB) || s.Tbl != strings.ToLower(s.Tbl)) {
+		if (s.Kind == "grant" || s.Kind == "grant-routine") && (s.DB != strings.ToLower(s.DB) || s.Tbl != strings.ToLower(s.Tbl)) {
 			mixedCaseGrant = true
 		}
 		if s.Kind == "grant-role" && s.Admin {
@@ -228,45 +241,45 @@ func run(c *lib.Ctx, cs caseT) {
 		}
 	}
 	compare := func() {
-	for _, n := range append(append([]string{}, userNames...), roleNames...) {
-		ga, gb := showGrants(rootA, acct(n)), showGrants(rootB, acct(n))
-		if ga != gb {
-			cs.Diff = append(cs.Diff, fmt.Sprintf("SHOW GRANTS FOR %s: before %q after %q", acct(n), ga, gb))
-			sig := phase + "/show-grants-differs"
-			if dupRole && strings.Count(ga, "`@`%`") > strings.Count(gb, "`@`%`") {
-				sig = "show-grants-differs/role-granted-twice-with-different-admin-option-listed-twice-before-reload"
-			} else if phase == "after-follow-up-revoke" && mixedCaseGrant {
-				sig = phase + "/show-grants-differs/revoke-ineffective-on-mixed-case-object-name"
-			}
-			if adminGrant && strings.Contains(ga, "WITH ADMIN OPTION") && strings.ReplaceAll(ga, " WITH ADMIN OPTION", "") == gb {
-				sig = phase + "/show-grants-differs/with-admin-option-lost-on-reload"
-			}
-			fails = append(fails, pf{sig, cs.Diff[len(cs.Diff)-1]})
-		}
-	}
-	// predicate 2: allow/deny of probe statements as each user
-	var sid uint32 = 100
-
-	for _, u := range userNames {
-		sid++
-		ua, ub := sessAs(a, u, "localhost", sid), sessAs(b, u, "localhost", sid)
-		for _, q := range probes {
-			ra, rb := ua.Query(q), ub.Query(q)
-			da, dbb := eng.ErrKind(ra.Err) == "denied", eng.ErrKind(rb.Err) == "denied"
-			if !da {
-				c.Count("probe-allowed-before")
-			}
-			c.Count(fmt.Sprintf("probe/denied_before_%v/denied_after_%v", da, dbb))
-			if da != dbb {
-				cs.Diff = append(cs.Diff, fmt.Sprintf("%s as %s: denied before=%v after=%v (%v)", q, u, da, dbb, rb.Err))
-				sig := phase + "/allow-deny-differs"
-				if mixedCaseGrant {
-					sig = phase + "/allow-deny-differs/mixed-case-object-name"
+		for _, n := range append(append([]string{}, userNames...), roleNames...) {
+			ga, gb := showGrants(rootA, acct(n)), showGrants(rootB, acct(n))
+			if ga != gb {
+				cs.Diff = append(cs.Diff, fmt.Sprintf("SHOW GRANTS FOR %s: before %q after %q", acct(n), ga, gb))
+				sig := phase + "/show-grants-differs"
+				if dupRole && strings.Count(ga, "`@`%`") > strings.Count(gb, "`@`%`") {
+					sig = "show-grants-differs/role-granted-twice-with-different-admin-option-listed-twice-before-reload"
+				} else if phase == "after-follow-up-revoke" && mixedCaseGrant {
+					sig = phase + "/show-grants-differs/revoke-ineffective-on-mixed-case-object-name"
+				}
+				if adminGrant && strings.Contains(ga, "WITH ADMIN OPTION") && strings.ReplaceAll(ga, " WITH ADMIN OPTION", "") == gb {
+					sig = phase + "/show-grants-differs/with-admin-option-lost-on-reload"
 				}
 				fails = append(fails, pf{sig, cs.Diff[len(cs.Diff)-1]})
 			}
 		}
-	}
+		// predicate 2: allow/deny of probe statements as each user
+		var sid uint32 = 100
+
+		for _, u := range userNames {
+			sid++
+			ua, ub := sessAs(a, u, "localhost", sid), sessAs(b, u, "localhost", sid)
+			for _, q := range probes {
+				ra, rb := ua.Query(q), ub.Query(q)
+				da, dbb := eng.ErrKind(ra.Err) == "denied", eng.ErrKind(rb.Err) == "denied"
+				if !da {
+					c.Count("probe-allowed-before")
+				}
+				c.Count(fmt.Sprintf("probe/denied_before_%v/denied_after_%v", da, dbb))
+				if da != dbb {
+					cs.Diff = append(cs.Diff, fmt.Sprintf("%s as %s: denied before=%v after=%v (%v)", q, u, da, dbb, rb.Err))
+					sig := phase + "/allow-deny-differs"
+					if mixedCaseGrant {
+						sig = phase + "/allow-deny-differs/mixed-case-object-name"
+					}
+					fails = append(fails, pf{sig, cs.Diff[len(cs.Diff)-1]})
+				}
+			}
+		}
 		ua, ub := rootA.Query("SELECT user, host, plugin, authentication_string, account_locked FROM mysql.user"), rootB.Query("SELECT user, host, plugin, authentication_string, account_locked FROM mysql.user")
 		if xa, xb := strings.Join(eng.Bag(ua.Rows), "/"), strings.Join(eng.Bag(ub.Rows), "/"); xa != xb || (ua.Err == nil) != (ub.Err == nil) {
 			cs.Diff = append(cs.Diff, "mysql.user differs")
@@ -358,10 +371,13 @@ func run(c *lib.Ctx, cs caseT) {
 	nrev := 0
 	for i := len(cs.History) - 1; i >= 0 && nrev < 2; i-- {
 		s := cs.History[i]
-		if s.Kind != "grant" {
+		if s.Kind != "grant" && s.Kind != "grant-routine" {
 			continue
 		}
 		q := "REVOKE " + s.Privs[0] + " ON " + levelSQL(s) + " FROM " + acct(s.User)
+		if s.Kind == "grant-routine" {
+			q = "REVOKE EXECUTE ON PROCEDURE `" + s.DB + "`.`" + s.Tbl + "` FROM " + acct(s.User)
+		}
 		ra, rb := rootA.Query(q), rootB.Query(q)
 		if (ra.Err == nil) != (rb.Err == nil) {
 			fails = append(fails, pf{phase + "/statement-outcome-differs", fmt.Sprintf("%s: before-engine %v, reloaded engine %v", q, ra.Err, rb.Err)})
@@ -425,6 +441,18 @@ func gen(r *lib.RNG) caseT {
 	for i := 0; i < n; i++ {
 		s := stmtT{User: lib.Pick(r, names)}
 		switch k := r.Intn(20); {
+		case k < 2:
+			s.Kind = "grant-dynamic"
+			s.Privs = []string{lib.Pick(r, dynNames)}
+			s.Admin = r.Bool()
+		case k < 4:
+			s.Kind = "grant-routine"
+			s.DB, s.Tbl, s.Privs = "db", lib.Pick(r, procNames), []string{"EXECUTE"}
+			if mixed {
+				s.Tbl = spell(r, s.Tbl)
+			} else {
+				s.Tbl = "lowproc"
+			}
 		case k < 14:
 			s.Kind = "grant"
 			switch r.Intn(10) {
@@ -436,6 +464,9 @@ func gen(r *lib.RNG) caseT {
 			default:
 				s.DB = lib.Pick(r, dbNames)
 				s.Tbl = lib.Pick(r, tblNames)
+				if s.DB == "db" {
+					s.Tbl = lib.Pick(r, dbTblNames)
+				}
 				s.Privs = subset(r, tblPrivs)
 			}
 			if mixed {
@@ -468,9 +499,10 @@ func main() {
 		c.CaseType = "C41.case"
 		c.MismatchFn = "C41.mismatches"
 		c.SetRule("histories of CREATE USER (with / without password) / CREATE ROLE, 1-10 GRANTs of 1-3 privileges at global, database " +
-			"(db, Db2) or table (t, Ss) level, GRANT role [WITH ADMIN OPTION], ALTER USER ACCOUNT LOCK, run by root on an engine whose " +
+			"(db, Db2) or table (t, Ss, Orders) level, EXECUTE on procedures (DoWork, lowproc), the dynamic privileges CLONE_ADMIN / " +
+			"REPLICATION_SLAVE_ADMIN with or without GRANT OPTION, GRANT role [WITH ADMIN OPTION], ALTER USER ACCOUNT LOCK, run by root on an engine whose " +
 			"persister keeps the bytes; half of the histories spell object names in mixed / upper / lower case, the other half use " +
-			"lower-case objects only. The bytes are loaded into a fresh engine; SHOW GRANTS of all 5 accounts, 9 probe statements as " +
+			"lower-case objects only. The bytes are loaded into a fresh engine; SHOW GRANTS of all 5 accounts, 14 probe statements (tables and procedures with upper-case names included) as " +
 			"each of 3 users and 39 PrivilegeSet lookups per account; then up to two REVOKEs of granted privileges are run on both engines and everything is compared again are compared before vs after. One Coq case per existing account; " +
 			"non-trivial = the account received at least one grant.")
 		if c.ReplayFile != "" {
@@ -485,6 +517,13 @@ func main() {
 			{History: []stmtT{cu("u1"), {Kind: "grant", User: "u1", DB: "Db2", Privs: []string{"SELECT"}}}},
 			{History: []stmtT{cu("u1"), {Kind: "grant", User: "u1", DB: "db", Tbl: "Ss", Privs: []string{"SELECT"}}}},
 			{History: []stmtT{cu("u1"), {Kind: "create-role", User: "r1"}, {Kind: "grant-role", User: "u1", Role: "r1", Admin: true}}},
+			// dynamic privileges with different WITH GRANT OPTION flags on one account
+			{History: []stmtT{cu("u1"), {Kind: "grant-dynamic", User: "u1", Privs: []string{"CLONE_ADMIN"}, Admin: true}, {Kind: "grant-dynamic", User: "u1", Privs: []string{"REPLICATION_SLAVE_ADMIN"}}}},
+			{History: []stmtT{cu("u2"), {Kind: "grant-dynamic", User: "u2", Privs: []string{"REPLICATION_SLAVE_ADMIN"}, Admin: true}, {Kind: "grant-dynamic", User: "u2", Privs: []string{"CLONE_ADMIN"}}}},
+			// grants on objects with upper-case letters, direct and via a role: decisions right after reload
+			{History: []stmtT{cu("u1"), {Kind: "grant", User: "u1", DB: "db", Tbl: "Orders", Privs: []string{"SELECT"}}, {Kind: "grant-routine", User: "u1", DB: "db", Tbl: "DoWork", Privs: []string{"EXECUTE"}}}},
+			{History: []stmtT{cu("u3"), {Kind: "create-role", User: "r1"}, {Kind: "grant", User: "r1", DB: "db", Tbl: "Orders", Privs: []string{"SELECT"}}, {Kind: "grant-routine", User: "r1", DB: "db", Tbl: "DoWork", Privs: []string{"EXECUTE"}}, {Kind: "grant-role", User: "u3", Role: "r1"}}},
+			{History: []stmtT{cu("u2"), {Kind: "grant-routine", User: "u2", DB: "db", Tbl: "lowproc", Privs: []string{"EXECUTE"}}}},
 			// ordinary behaviour
 			{History: []stmtT{cu("u1"), {Kind: "grant", User: "u1", DB: "db", Privs: []string{"SELECT", "UPDATE"}}, {Kind: "grant", User: "u1", DB: "db", Tbl: "t", Privs: []string{"INSERT"}}}},
 			{History: []stmtT{cu("u2"), {Kind: "create-role", User: "r2"}, {Kind: "grant", User: "r2", Privs: []string{"SELECT"}}, {Kind: "grant-role", User: "u2", Role: "r2"}, {Kind: "lock", User: "u2"}}},
